@@ -445,7 +445,7 @@ def judge_supplied(rec, sp, rr):
                 flag = {"c": "c", "f": "fortran", "py": "python"}[lang]
                 on = _wrap_on(rr, info.get("decl"), flag)
                 dtxt = info.get("decl") or ""
-                if lang == "c" and (re.search(r"std::vector\s*<", dtxt) or re.match(r"\s*(const\s+)?std::string\s+\w+\s*\(", dtxt)):
+                if lang == "c" and (re.search(r"\bvector\s*<", dtxt) or re.match(r"\s*(const\s+)?(std::)?string\s+\w+\s*\(", dtxt)):
                     on = False      # no plain C entry point exists for these (only the bufferify one, splicer key c_buf)
                 if lang == "py" and dtxt.lstrip().startswith("~"):
                     on = False      # the Python destructor is the type's tp_del, not a wrapped method
